@@ -93,11 +93,44 @@ fn decode_in(a: &Args) {
     out.finish();
 }
 
+/// fragment pool histories: {"id", "lens": [..], "map": [..], "ops": [..]} per line
+fn defrag_run(a: &Args) {
+    let inp = std::fs::read_to_string(a.get("in").expect("--in")).expect("read input");
+    let mut out = Out::new(a.get("out").expect("--out"));
+    let marker = Marker::new(a.get("marker"));
+    let skip = a.skip_ids();
+    for line in inp.lines() {
+        if line.trim().is_empty() {
+            continue;
+        }
+        let v: Value = serde_json::from_str(line).expect("input json");
+        let id = v["id"].as_str().unwrap().to_string();
+        if skip.contains(&id) {
+            continue;
+        }
+        marker.set(&id);
+        let lens: Vec<u64> = v["lens"].as_array().unwrap().iter().map(|x| x.as_u64().unwrap()).collect();
+        let map: Vec<u64> = v["map"].as_array().unwrap().iter().map(|x| x.as_u64().unwrap()).collect();
+        let mut evs = vec![];
+        let r = std::panic::catch_unwind(std::panic::AssertUnwindSafe(|| {
+            verif_harness::defrag::run_history(&id, &lens, &map, v["ops"].as_array().unwrap(), &mut evs);
+        }));
+        for e in &evs {
+            out.line(e);
+        }
+        if r.is_err() {
+            out.line(&json!({"ev": "panic", "id": id}));
+        }
+    }
+    out.finish();
+}
+
 fn main() {
     let a = Args::new();
     match a.v.get(1).map(|s| s.as_str()) {
         Some("decode-gen") => decode_gen(&a),
         Some("decode-in") => decode_in(&a),
+        Some("defrag-run") => defrag_run(&a),
         other => {
             eprintln!("unknown sub command {:?}", other);
             std::process::exit(2);
